@@ -272,12 +272,14 @@ static void run_seq(int langid, int xmlgen, char *opsline) {
     if (!overflow) {
         if (tree->root) emit_outputs(tree, xmlgen); else printf(" W=none X=none");
     }
-    printf("\n");
+    /* everything is destroyed BEFORE the answer line is completed: a sanitizer report during destruction leaves
+       this sequence unanswered, so that the check attributes it to the right input */
     if (!overflow) {
         for (i = 0; i < ndet; i++) wbxml_tree_node_destroy_all(detached[i]);
         ndet = 0;
         wbxml_tree_destroy(tree);
     }
+    printf("\n");
 }
 
 static void run_xml(int xmlgen, const char *hex) {
